@@ -2758,7 +2758,7 @@ theorem updateAttr_ps (X : Ctx) (hX : NoClassDnc X) (hW : World X h₀ A TAll) (
     (self : Ref) (a : Nat) (v : Ref) (kw : List (Nat × Ref))
     (hv : Good h₀.length A v) (ha : ∀ av, av ∈ kw → Good h₀.length A av.2) :
     PS h₀ A (updateAttr X self a v kw false) (FreshRef h₀.length) := by
-  unfold updateAttr
+  rw [updateAttr_eq_core hX]; unfold updateAttrCore
   refine (getInst_ps self).bind (fun p hp => ?_)
   split
   · exact PS.throwPy _
@@ -2797,7 +2797,7 @@ theorem transformAttr_ps (X : Ctx) (hX : NoClassDnc X) (hW : World X h₀ A TAll
     (hM : MakeGood h₀ A X) (self : Ref) (a : Nat) (f : Option Cb) (kwf : List (Nat × Cb))
     (hf : ∀ cb, f = some cb → cb.plain = true) :
     PS h₀ A (transformAttr X self a f kwf false) (FreshRef h₀.length) := by
-  unfold transformAttr
+  rw [transformAttr_eq_core hX]; unfold transformAttrCore
   refine (getInst_ps self).bind (fun p hp => ?_)
   split
   · exact PS.throwPy _
